@@ -13,6 +13,15 @@ from lib import Ctx, VERIF, WORK
 PID = "C16"
 
 
+# all schedules with one pre-emption (a check-then-act window needs exactly one) + 16 random schedules from a FIXED seed: deterministic
+PINNED = ("pinned", lc.QUICK_PAIRS, 1, 400, 16)
+PIN_SEED = 20261001
+
+
+def pair_key(rec):
+    return "%s %s" % (rec["shape"], "+".join(rec["ops"]))
+
+
 def outcome_of(run):
     return "%s#%s" % ("|".join(run.get("results", [])), run.get("state"))
 
@@ -99,12 +108,19 @@ def run(tier, seed):
             replay_known(ctx, avh, known)
             # ---- exploration
             ops = lc.ops_list(avh)
+            # "pinned": seed-independent (no random part); the tuples that are serializable in every schedule of this pass TODAY are listed in
+            # the baseline (c16_serializable_pairs): one of them showing a non-serializable outcome is reported with its schedule
             if tier == "thorough":
-                passes = [("pb3", lc.thorough_pairs(ops), 3, 150, 60), ("triples", lc.TRIPLES, 2, 300, 300), ("random-long", lc.QUICK_PAIRS, 0, 0, 350)]
+                passes = [PINNED, ("pb3", lc.thorough_pairs(ops), 3, 150, 60), ("triples", lc.TRIPLES, 2, 300, 300), ("random-long", lc.QUICK_PAIRS, 0, 0, 350)]
             else:
-                passes = [("pb2", lc.QUICK_PAIRS, 2, 40, 12), ("triples", lc.TRIPLES[:3], 1, 30, 10)]
+                passes = [PINNED, ("random", lc.QUICK_PAIRS, 0, 0, 12), ("triples", lc.TRIPLES[:3], 1, 30, 10)]
             extra = []
-            for r in reg[:4]:
+            seen_inst, picked = set(), []
+            for r in sorted(reg, key=lambda r: (0 if " S3/" in r["instance"] else 1)):   # distinct instances, the nested shape first
+                if r["instance"] not in seen_inst:
+                    seen_inst.add(r["instance"])
+                    picked.append(r)
+            for r in picked[:6]:
                 f = r["instance"].split()
                 shape, inst = f[1].split("/", 1)
                 name = "%s/%s" % (f[0], inst)
@@ -117,9 +133,11 @@ def run(tier, seed):
             total_runs, n_nonser, by_known, unclaimed, contradictions, lost = 0, 0, {}, [], [], []
             base_fx = set(base.get("c16_locked_with_effect", []))
             fx_new, fx_seen = [], set()
+            base_ser = set(base.get("c16_serializable_pairs", []))
+            ser_lost = []
             claimed_pairs, claimed_runs = 0, 0
             for tag, tuples, k, limit, nrand in passes:
-                recs, errs = lc.explore(avh, list(tuples), k, limit, nrand, seed, "c16" + tag)
+                recs, errs = lc.explore(avh, list(tuples), k, limit, nrand, PIN_SEED if tag == "pinned" else seed, "c16" + tag)
                 ctx.oblige("scheduler:%s exploration ran (%d tuples)" % (tag, len(tuples)), not errs and len(recs) > 0, "; ".join(errs[:2]))
                 for rec in recs:
                     total_runs += rec["runs"]
@@ -130,6 +148,8 @@ def run(tier, seed):
                     if not rec["nonserial"]:
                         continue
                     n_nonser += rec["nonserial"]
+                    if tag == "pinned" and pair_key(rec) in base_ser:
+                        ser_lost.append(rec)
                     if rec["lockfx"] and len(rec["ops"]) == 2:   # pairs only: with three calls the other two may be the non-serializable ones
                         # a call gave up with ParentElementLocked although the outcome is not that of the other calls alone
                         k = "%s %s" % (rec["shape"], "+".join(sorted(rec["ops"])))
@@ -159,6 +179,13 @@ def run(tier, seed):
             ctx.oblige("C16:a call that returns ParentElementLocked has no effect: no tuple outside the baseline / recorded findings where the outcome of such "
                        "a run differs from the other calls alone", not fx_new,
                        "; ".join("%s %s" % (c["shape"], "+".join(c["ops"])) for c in fx_new[:4]))
+            ctx.coverage["tuples_pinned_serializable(baseline)"] = len(base_ser)
+            ctx.oblige("C16:every tuple that the baseline lists as serializable in all schedules of the pinned pass (all schedules with <= 1 pre-emption + 16 fixed-seed random schedules, %d tuples) still is" % len(base_ser),
+                       not ser_lost, "; ".join("%s %s" % (c["shape"], "+".join(c["ops"])) for c in ser_lost[:4]))
+            for rec in ser_lost[:3]:
+                s, oc = (rec["nonser"] or [("", "")])[0]
+                prop_viol.append({"what": "non-serializable interleaving of calls that were serializable in every schedule of the same exploration on the baseline tree "
+                                          "(results + final canonical state equal no serial order)", "shape": rec["shape"], "ops": rec["ops"], "schedule": s, "outcome": oc})
             for rec in fx_new[:3]:
                 s, oc = rec["lockfx"][0]
                 prop_viol.append({"what": "a call returned ParentElementLocked but had an effect (results + final canonical state differ from every serial "
@@ -210,6 +237,21 @@ def replay(path):
             return 1 if outcome_of(res) not in serial_outcomes(res) else 0
     return run("quick", 1)
 
+
+if __name__ == "__main__" and len(sys.argv) > 1 and sys.argv[1] == "baseline-pairs":
+    # maintenance: the tuples of the pinned pass that are serializable in every explored schedule (three repetitions in separate processes)
+    ctx = Ctx("c16-tool", "quick", 1)
+    avh = lib.harness_build(ctx, hooks=True)
+    good = None
+    for rep in range(3):
+        recs, errs = lc.explore(avh, list(PINNED[1]), PINNED[2], PINNED[3], PINNED[4], PIN_SEED, "c16bp")
+        assert not errs, errs
+        g = set(pair_key(r) for r in recs if r["nonserial"] == 0 and r["timed_out"] == 0)
+        good = g if good is None else (good & g)
+    b = json.load(open(lc.BASELINE))
+    b["c16_serializable_pairs"] = sorted(good)
+    json.dump(b, open(lc.BASELINE, "w"), indent=1, sort_keys=True)
+    print("pinned serializable tuples: %d of %d" % (len(good), len(PINNED[1])))
 
 if __name__ == "__main__" and len(sys.argv) > 1 and sys.argv[1] == "make-findings":
     # maintenance: (re)create the replay files of the recorded findings from a fresh exploration
